@@ -207,6 +207,24 @@ func cmdCheck(args []string) {
 		}
 	}
 	solveAll(obs, pres, timeout, 16, *tier == "thorough", dir)
+	// a timeout under full load is not a verdict: obligations that ran out of time (no model, no
+	// proof) get a second, nearly serial attempt with three times the budget
+	if !*update {
+		var again []*Oblig
+		for _, o := range obs {
+			if o.Res != nil && o.Res.Status != "unsat" && o.Res.Status != "sat" && !knownBase[baseName(o.Name)] {
+				if o.TimeoutS > 0 {
+					o.TimeoutS *= 3
+				} else {
+					o.TimeoutS = timeout * 3
+				}
+				again = append(again, o)
+			}
+		}
+		if len(again) > 0 && len(again) <= 12 {
+			solveAll(again, pres, timeout*3, 2, false, dir)
+		}
+	}
 	if cfg.AtomicScan {
 		for _, o := range g.atomicScan() {
 			if !notClaimed[baseName(o.Name)] {
